@@ -800,26 +800,46 @@ func (m *mtr) upd(cur string, ct *ty, path []string, where string, leaf func(str
 	if st.k != "struct" {
 		m.fail(n, "field assignment on a non-struct")
 	}
-	found := false
-	var fs []string
-	for _, f := range m.p.structs[st.name].Fields.List {
-		for _, fid := range f.Names {
-			v := "(" + st.name + "_" + fid.Name + " " + s + ")"
-			if fid.Name == path[0] {
-				found = true
-				v = m.upd(v, m.structFieldType(st.name, fid.Name, n), path[1:], where+"."+fid.Name, leaf, n)
-			}
-			fs = append(fs, fmt.Sprintf("%s_%s := %s", st.name, fid.Name, v))
-		}
-	}
-	if !found {
-		m.fail(n, "struct %s has no field %s", st.name, path[0])
-	}
-	rec := "{| " + strings.Join(fs, "; ") + " |}"
+	ft := m.structFieldType(st.name, path[0], n)
+	v := m.upd("("+st.name+"_"+path[0]+" "+s+")", ft, path[1:], where+"."+path[0], leaf, n)
+	usedSetters[st.name+"."+path[0]] = true
+	rec := "(set_" + st.name + "_" + path[0] + " " + paren(v) + " " + s + ")"
 	if ct.k == "opt" {
 		rec = "(Some " + rec + ")"
 	}
 	return rec
+}
+
+// setters used by the generated definitions: set_<Struct>_<Field> v r is r with the field replaced
+var usedSetters = map[string]bool{}
+
+func (p *pkg) emitSetters() string {
+	var keys []string
+	for k := range usedSetters {
+		keys = append(keys, k)
+	}
+	sort.Strings(keys)
+	t := &tr{p: p, fn: "setters", env: map[string]*ty{}}
+	var b strings.Builder
+	for _, k := range keys {
+		parts := strings.SplitN(k, ".", 2)
+		sn, fn := parts[0], parts[1]
+		var fs []string
+		var ft *ty
+		for _, f := range p.structs[sn].Fields.List {
+			for _, fid := range f.Names {
+				if fid.Name == fn {
+					ft = t.goType(f.Type)
+					fs = append(fs, fmt.Sprintf("%s_%s := v", sn, fid.Name))
+				} else {
+					fs = append(fs, fmt.Sprintf("%s_%s := %s_%s r", sn, fid.Name, sn, fid.Name))
+				}
+			}
+		}
+		fmt.Fprintf(&b, "Definition set_%s_%s (v : %s) (r : %s) : %s :=\n  {| %s |}.\n", sn, fn, ft.coq(), sn, sn, strings.Join(fs, "; "))
+	}
+	b.WriteString("\n")
+	return b.String()
 }
 
 // ---------- statements ----------
@@ -946,7 +966,7 @@ func (m *mtr) stmts(list []ast.Stmt, out vset, k func() string) string {
 				}
 				m.env[id.Name] = typ
 				m.decl[id.Name] = typ
-				o += "let " + cname(id.Name) + " := " + val + " in\n  "
+				o += "let " + cname(id.Name) + " : " + typ.coq() + " := " + val + " in\n  "
 			}
 		}
 		return o + rest()
@@ -1328,14 +1348,15 @@ func (p *pkg) mfunction(key string) string {
 }
 
 func (p *pkg) emitParseGen() string {
-	var b strings.Builder
-	b.WriteString("(* Generated from the bodies of the byte-level parsers of /repo by go/gen (itermonad.go) on every run. Do not edit.\n" +
+	head := "(* Generated from the bodies of the byte-level parsers of /repo by go/gen (itermonad.go) on every run. Do not edit.\n" +
 		"   Each function that takes an *astikit.BytesIterator becomes a computation in the iterator monad IM of Base/Iter.v:\n" +
 		"   `if x, err = i.NextBytes(n); err != nil { wrap; return }` is `x <- next_bytes n ;; ...`, a wrapped error keeps its tag,\n" +
-		"   integers are Z with `mod 2^N` at every uintN operation, a pointer result *T is the record T, field assignments are\n" +
-		"   record updates, conditional blocks return the variables they assign that are still live.  Proofs/ParseGenEq.v proves\n" +
-		"   the hand-written models of Model/Clock.v, Model/Packet.v and Model/Pes.v equal to these definitions. *)\n" +
-		"From Coq Require Import ZArith List Bool.\nRequire Import Base.Iter Gen.Consts Gen.Types Gen.Preds.\nImport ListNotations.\nOpen Scope Z_scope.\nOpen Scope iter_scope.\n\n")
+		"   integers are Z with `mod 2^N` at every uintN operation, a pointer result *T is the record T, a field assignment\n" +
+		"   x.f = v is `let x := set_T_f v x` (the record with that field replaced), conditional blocks return the variables they\n" +
+		"   assign that are still live.  Proofs/ParseGenEq.v proves the hand-written models of Model/Clock.v, Model/Packet.v and\n" +
+		"   Model/Pes.v equal to these definitions. *)\n" +
+		"From Coq Require Import ZArith List Bool.\nRequire Import Base.Iter Gen.Consts Gen.Types Gen.Preds.\nImport ListNotations.\nOpen Scope Z_scope.\nOpen Scope iter_scope.\n\n"
+	var b strings.Builder
 	for _, key := range parseEntries {
 		func() {
 			defer func() {
@@ -1351,5 +1372,5 @@ func (p *pkg) emitParseGen() string {
 			b.WriteString(p.mfunction(key))
 		}()
 	}
-	return b.String()
+	return head + p.emitSetters() + b.String()
 }
